@@ -225,7 +225,7 @@ _p("C15", modules=["keys", "quic_session_c", "quic_tls_c"], level="proof",
    trusted_base=["cryptography.hazmat.primitives (hashes, hmac, kdf.hkdf)"],
    not_under_contract=["QuicSession.check_key_epoch (epoch counting)", "QUIC v2 label set"])
 
-_p("C03", modules=["robustness", "demux", "ports", "quic_output", "main_run", "quic_session_c", "quic_keystate"], level="other",
+_p("C03", modules=["robustness", "demux", "ports", "quic_output", "main_run", "quic_session_c", "quic_keystate", "checksums", "container", "keylog", "keylog_unbounded", "tcp_output", "keys", "framing", "framing_unbounded", "quic_tls_c"], level="other",
    technique="contract-based deductive verification: exception freedom for arbitrary bytes / states with library calls allowed to fail; representation invariant of the QUIC key state; routing + frame obligations for isolation",
    level_text="Proved: for ANY TLS record (>= its 5 header bytes), ANY session flag state, ANY version state and a decryptor that fails or returns arbitrary bytes, the "
               "record reaches handle_tls_record through get_tls_records without an exception leaving get_tls_records (all nine record handlers executed from their real "
@@ -239,7 +239,9 @@ _p("C03", modules=["robustness", "demux", "ports", "quic_output", "main_run", "q
               "buffers, including the Version Negotiation pseudo frame (source packets built by the real constructors); isolation = C04's routing, frame and separation obligations.",
    level_note="level 'other': the dissector's own exception freedom / progress / 'protected packet only with a usable hp key' is discharged in the THOROUGH tier only (about 7 minutes); "
               "the 'at most a prefix of the true plaintext' clause for wrong keys is a statement about AEAD/CBC and is not reached; the lifting from per-function exception freedom to "
-              "'the run never fails' is the call graph of run() (each callee under contract) and is argued, not machine-checked",
+              "'the run never fails' is the composition obligation robust.call_graph: the barrier-aware call graph of run() is rebuilt from the sources on every run; every function enterable "
+              "outside a try/except-Exception has an exception-freedom contract (several discharged in other properties' runs) or is a stated assumption (Packet.__init__ on truncated "
+              "frames = dpkt's parser; read_keylog_from_file exits when the -s file is missing), every function allowed to raise stays behind a barrier; call resolution is syntactic",
    design_ref="DESIGN.md 4 C03, 8.8",
    explanation="Every function between run()'s packet loop and the writers is exception-free by a discharged contract (TLS path, QUIC key state, QUIC builder) except the dissector, whose contract runs in the thorough tier.",
    assumptions=["every library call may raise on any input (cryptography, dpkt), except: AEAD constructors accept keys of their allowed lengths, HKDFExpand(length).derive returns `length` bytes"], trusted_base=[],
